@@ -567,6 +567,8 @@ impl Space for Stability {
                                 let st = w.get_cell_mut((*col, *row)).get_style_mut();
                                 st.get_font_mut().set_name("Edited Font").set_size(13.5).set_italic(true);
                                 st.set_background_color("FF12AB34");
+                                // ... and a number format code the workbook does not have yet
+                                st.get_numbering_format_mut().set_format_code("0.00\" s\"");
                             }
                             "set-hyperlink" => {
                                 let mut h = Hyperlink::default();
